@@ -3,16 +3,63 @@ use crate::json::J;
 use rustc_hir as hir;
 use rustc_hir::def::{CtorOf, DefKind, Res};
 use rustc_hir::def_id::{DefId, LocalDefId};
-use rustc_middle::ty::print::with_no_trimmed_paths;
+use rustc_middle::ty::print::{with_no_trimmed_paths, with_no_visible_paths};
 use rustc_middle::ty::{self, Ty, TyCtxt, TypeckResults};
 use rustc_span::{ExpnKind, Span};
 
 pub fn dpath(tcx: TyCtxt<'_>, did: DefId) -> String {
-    with_no_trimmed_paths!(tcx.def_path_str(did))
+    norm(&with_no_visible_paths!(with_no_trimmed_paths!(tcx.def_path_str(did))))
+}
+
+pub fn dpath_args<'tcx>(tcx: TyCtxt<'tcx>, did: DefId, args: ty::GenericArgsRef<'tcx>) -> String {
+    norm(&with_no_visible_paths!(with_no_trimmed_paths!(
+        tcx.def_path_str_with_args(did, args)
+    )))
 }
 
 pub fn ty_str<'tcx>(ty: Ty<'tcx>) -> String {
-    with_no_trimmed_paths!(format!("{}", ty))
+    norm(&with_no_visible_paths!(with_no_trimmed_paths!(format!("{}", ty))))
+}
+
+/// `swc_ecma_ast::expr::Expr` -> `swc_ecma_ast::Expr` (private module segments of the AST
+/// crates carry no information and would make every matcher depend on swc's file layout)
+pub fn norm(s: &str) -> String {
+    let mut out = String::with_capacity(s.len());
+    let bytes = s.as_bytes();
+    let mut i = 0;
+    let prefixes = ["swc_ecma_ast::", "swc_atoms::", "swc_common::", "hstr::"];
+    'outer: while i < bytes.len() {
+        for p in prefixes {
+            if s[i..].starts_with(p)
+                && (i == 0 || !(bytes[i - 1].is_ascii_alphanumeric() || bytes[i - 1] == b'_'))
+            {
+                out.push_str(p);
+                i += p.len();
+                // drop lower-case module segments
+                loop {
+                    let rest = &s[i..];
+                    let seg_end = rest
+                        .find(|c: char| !(c.is_ascii_alphanumeric() || c == '_'))
+                        .unwrap_or(rest.len());
+                    let seg = &rest[..seg_end];
+                    if !seg.is_empty()
+                        && seg.chars().next().unwrap().is_ascii_lowercase()
+                        && rest[seg_end..].starts_with("::")
+                        && !rest[seg_end + 2..].starts_with('<')
+                    {
+                        i += seg_end + 2;
+                    } else {
+                        break;
+                    }
+                }
+                continue 'outer;
+            }
+        }
+        let ch = s[i..].chars().next().unwrap();
+        out.push(ch);
+        i += ch.len_utf8();
+    }
+    out
 }
 
 pub fn span_json(tcx: TyCtxt<'_>, sp: Span) -> J {
@@ -422,7 +469,7 @@ impl<'tcx> Cx<'tcx> {
                             j.set("callee", J::s(dpath(tcx, *did)));
                             j.set(
                                 "callee_full",
-                                J::s(with_no_trimmed_paths!(tcx.def_path_str_with_args(*did, args))),
+                                J::s(dpath_args(tcx, *did, args)),
                             );
                         }
                     }
@@ -438,7 +485,7 @@ impl<'tcx> Cx<'tcx> {
                     if let Some(ga) = self.typeck.node_args_opt(e.hir_id) {
                         j.set(
                             "callee_full",
-                            J::s(with_no_trimmed_paths!(tcx.def_path_str_with_args(did, ga))),
+                            J::s(dpath_args(tcx, did, ga)),
                         );
                     }
                 }
